@@ -1,4 +1,4 @@
-HOOK_COMMITS = ["1f23ce1", "19a6366", "2f68a08", "696cad2", "6d64dfa", "02a7a17", "ec44b21"]
+HOOK_COMMITS = ["1f23ce1", "19a6366", "2f68a08", "696cad2", "6d64dfa", "02a7a17", "ec44b21", "4f0f0e1"]
 NOTES = ("Solver-based checking of the real code: Kani/CBMC harnesses over roto's Rust (engine K), translation validation of the "
          "emitted cranelift IR with symbolic arguments in z3 (engine T), symbolic interpretation of MIR slices of the LIR evaluator "
          "(engine M). See DESIGN.md, section 10 for the as-built record. Exit 2 = inconclusive (timeout, OOM, vacuous harness, "
@@ -45,7 +45,8 @@ claim("C05", MC,
       "Kani/CBMC, one harness per instantiation (30): for all payload values the repr(u8) mirror of Option/Result/Verdict has tag and payload where "
       "roto's enum layout rule puts them, in both directions, and untransform(transform(v)) == v. Engine T: identity functions, pass-through to host "
       "functions, Option/Verdict built in the script and read by Rust and vice versa, for all values.",
-      "Machine calling convention (only exercised by replays), String/List contents, context fields and constants are outside.",
+      "Registered constants are read through the bytes hook H2 captures. Machine calling convention (only exercised by replays), "
+      "String/List contents and context fields are outside.",
       "Kani/CBMC bounded model checking of the mirror enums + z3 translation validation of boundary identity programs", "K+T", "DESIGN.md 5/C05")
 claim("C06", MC,
       "Kani/CBMC: every token recogniser, skip-and-error path of the lexer on EVERY UTF-8 string of at most 3 bytes (thorough: 4, ASCII 5): no "
